@@ -4,6 +4,8 @@
 // "verif" build tag off it is invisible to the compiler.
 package authz
 
+//@ import nethttp "net/http"
+
 //@ import oidcv1 "github.com/istio-ecosystem/authservice/config/gen/go/v1/oidc"
 //@ import envoy "github.com/envoyproxy/go-control-plane/envoy/service/auth/v3"
 //@ import corev3 "github.com/envoyproxy/go-control-plane/envoy/config/core/v3"
@@ -236,12 +238,25 @@ package authz
 
 // NewOIDCHandler wires the handler; its body (HTTP client construction, discovery) is outside the
 // contract for now: assumed, listed as such.
-//@ func NewOIDCHandler
-//@   abstractbody
-//@   requires secure_generator: istype(sessionGen, *oidc.randomGenerator)
+//@ func loadWellKnownConfig
+//@   requires nonnil: client != nil && cfg != nil
+//@   #allocates
 //@   modifies heap oidcv1.OIDCConfig.AuthorizationUri, heap oidcv1.OIDCConfig.TokenUri, heap oidcv1.OIDCConfig.JwksConfig, heap oidcv1.OIDCConfig_JwksFetcherConfig.JwksUri, heap oidcv1.LogoutConfig.RedirectUri
+
+// The handler built for a check is fully wired (HandlerReady) and is the handler of THIS filter's
+// configuration, with the HTTP client NewHTTPClient built for it (C20). `assumes wired` is what
+// start-up leaves behind (the server object holds its pool, key source and store factory; PreRun
+// created a store for every OIDC filter: C18 WiredTo; Validate accepted only parseable callback
+// URIs: C17); the check path does not re-establish it.
+//@ func NewOIDCHandler
+//@   requires secure_generator: istype(sessionGen, *oidc.randomGenerator)
+//@   assumes wired: cfg != nil && tlsPool != nil && jwks != nil && sessions != nil && sessionGen != nil && StoreFor(sessions, cfg) != nil && UrlParses(cfg.GetCallbackUri()) && sessions.pay <= watermark() && jwks.pay <= watermark() && sessionGen.pay <= watermark() && tlsPool.pay <= watermark()
+//@   assumes default_transport: istype(deref(nethttp.DefaultTransport), *nethttp.Transport) && deref(nethttp.DefaultTransport).(*nethttp.Transport) != nil
+//@   #allocates
+//@   modifies heap oidcv1.OIDCConfig.AuthorizationUri, heap oidcv1.OIDCConfig.TokenUri, heap oidcv1.OIDCConfig.JwksConfig, heap oidcv1.OIDCConfig_JwksFetcherConfig.JwksUri, heap oidcv1.LogoutConfig.RedirectUri, ghost PoolAdded, ghost HashIn
 //@   ensures  err_nil: (result1 != nil) == (result0 == nil)
 //@   ensures  handler: result1 == nil ==> HandlerCfg(result0) == cfg && HandlerReady(result0)
+//@   ensures  client: result1 == nil ==> istype(result0, *oidcHandler) && fresh(result0.(*oidcHandler)) && result0.(*oidcHandler).httpClient != nil && result0.(*oidcHandler).sessions == sessions && result0.(*oidcHandler).jwks == jwks && result0.(*oidcHandler).sessionGen == sessionGen
 
 // ---------------------------------------------------------------------------------------------
 // C09 under interference (contract variant intf): logouts of any session may be answered by other
